@@ -71,6 +71,12 @@ func ErrorCode(writer *buffer.Writer, err error) error {
 		writer.AddNullTerminate()
 	}
 
+	if desc.ConstraintName != "" {
+		writer.AddByte(byte(errFieldConstraintName))
+		writer.AddString(desc.ConstraintName)
+		writer.AddNullTerminate()
+	}
+
 	writer.AddNullTerminate()
 	err = writer.End()
 	if err != nil {
